@@ -27,10 +27,12 @@ structure Cfg where
   nowAcc : Accessor
   /-- `NewNode`: `n.epoch = time.Unix(_epoch/SDivMs, …).<accessor>` -/
   epochAcc : Accessor
+  /-- `UseEpoch`: `o.epoch = t.<accessor>` (the option through which `Setup` receives the epoch) -/
+  setupAcc : Accessor
 deriving DecidableEq, Repr
 
 /-- configurations for which the property theorems that mention the clock are proved -/
-def Proved (c : Cfg) : Prop := c.nowAcc = .unixMilli ∧ c.epochAcc = .unixMilli
+def Proved (c : Cfg) : Prop := c.nowAcc = .unixMilli ∧ c.epochAcc = .unixMilli ∧ c.setupAcc = .unixMilli
 instance : DecidablePred Proved := fun c => by unfold Proved; exact inferInstance
 
 /-- shape facts the hand-written parts of the model rely on -/
@@ -45,9 +47,10 @@ structure Facts where
   monoShape : Bool               -- MonoNode.Generate: `if now == n.time {step+1 &stepMax; if 0 {spin while now <= n.time}} else {step=0}; n.time = now; r = now<<ts | node<<ns | step<<ss`
   nanoLocked : Bool              -- UnixNanoID.GenIDByTS: Lock before the compare, Unlock after the update
   nanoNoLockSame : Bool          -- UnixNanoNoLockID.GenIDByTS has the same body without the lock
+  nanoGenIDForwards : Bool       -- GenID (both types) is exactly `var ts = time.Now().UnixNano(); return n.GenIDByTS(ts)`
 deriving DecidableEq, Repr
 
-def Facts.expected : Facts := ⟨12, true, true, true, true, true, true, true, true, true⟩
+def Facts.expected : Facts := ⟨12, true, true, true, true, true, true, true, true, true, true⟩
 
 /-! ### layout -/
 
@@ -120,6 +123,12 @@ def hardGen (c : Cfg) (nb : BitVec 8) (nal : Bool) (st : HState) (t : Clock) : H
 /-- `n.epoch` as `NewNode` computes it from the global `_epoch` (milliseconds) -/
 def nodeEpoch (c : Cfg) (epochG : BitVec 64) : BitVec 64 :=
   accMs c.epochAcc (accWord c.epochAcc ⟨epochG.toInt, 0⟩)
+
+/-- `Setup(UseEpoch(t), UseNodeMode(mode), [NodeAtLowest()])` applied to the package defaults, `t` the instant
+    `epochMs` ms after 1970: the resulting `(_epoch, _nodeBits, _nodeAtLowest)`. `UseNodeMode` keeps 8 and 9 and turns
+    every other value into 10; `NodeAtLowest` can only switch the flag on. -/
+def setupCfg (c : Cfg) (epochMs : BitVec 64) (mode : BitVec 8) (lowest : Bool) : BitVec 64 × BitVec 8 × Bool :=
+  (accMs c.setupAcc (accWord c.setupAcc ⟨epochMs.toInt, 0⟩), if mode == 8#8 || mode == 9#8 then mode else 10#8, lowest)
 
 /-- `NewNode(node, min)`; `none` = the range error -/
 def newNode (c : Cfg) (nb : BitVec 8) (nal : Bool) (epochG node min : BitVec 64) : Option HState :=
